@@ -1222,3 +1222,19 @@ def observe(p, sub):
             raise
         ans = "err:" + type(e).__name__
     return dump + "&" + ans + "&" + wire.enc_strs([o.text for o in objs])
+
+
+RULE += (" PAIR STREAM (two LIVE instances; props/pairlib.py, channel `pair`): 900 (quick) cases hold two configs built from ONE template (the "
+         "tree generator above): B = A with 1-3 of {a child's text replaced, a child re-indented one level deeper / shallower, turned into a "
+         "comment, blanked, two children swapped, a child inserted / deleted / moved under another parent, a run of siblings pushed one level "
+         "down} (8 % identical, 6 % unrelated), so that parent lines coincide in (line number, text) -- line objects hash and compare by that "
+         "pair -- while their children / descendants differ; same or different syntax / ignore_blank_lines / comment delimiters. BOTH are "
+         "parsed first; then the SAME search (55 % a recursive API with recurse / all_children on, the rest any API, 10 % the other argument "
+         "forms; expressions drawn from a chain of A or of B; 1, 2 or one query per observation) is asked in the orders ABA, ABAB, BAB, "
+         "ABBA, AABA; 12 % end with an uncommitted insert on one instance (it must refuse) followed by the search on the other (it must "
+         "answer). Every answer is judged by the brute-force oracle on the tree of the instance that was asked, compared with the model's "
+         "answer for THAT instance alone, and an instance asked the same thing twice must answer the same. VERIF_NO_PAIR=1 leaves the stream out.")
+LEVEL_NOTE += (" Two live instances: the model is a function of one config (channel `pair` only carries ordinary requests; "
+               "Ccp.Drv.Pair.answers_get), so 'a search on one instance does not depend on other live instances' holds for the model by "
+               "construction and is MEASURED for the code by the pair stream (seeded change C04e -- an lru_cache on a BaseCfgLine method, shared "
+               "between instances because lines hash by (linenum, text), cleared at every bootstrap -- is reported by it and by nothing else).")
